@@ -322,15 +322,61 @@ Fixpoint run_script (ns : list dnode) (e : ent) : option ent :=
   | n :: r => match apply1 e n with Some e' => run_script r e' | None => None end
   end.
 
+(** ** [DirDiff.annotate(base_dir)]
+
+    [t] is the directory as it is on disk now ([dir_paths(base_dir)] = every path strictly
+    below the root).  The code returns [{}] for an empty diff; otherwise a dict whose items
+    are, in insertion order, the listed nodes keyed by their path, followed by the paths of
+    the directory that have no node, sorted, with value [None].  The dict is an association
+    list here (its keys are proved distinct).  [ann_script]: what a packer's loop sees when
+    it skips the [None] entries.  [leafokb]: leaf strings are non-empty (what [_type] needs
+    to tell a file from nothing). *)
+
+Fixpoint tpaths (pre : path) (t : dtree) : list path :=
+  match t with
+  | Lf _ => []
+  | D l => flat_map (fun kv => (pre ++ [fst kv]) :: tpaths (pre ++ [fst kv]) (snd kv)) l
+  end.
+
+Definition epaths (e : ent) : list path :=
+  match e with Some t => tpaths [] t | None => [] end.
+
+Definition listed (ns : list dnode) (p : path) : bool :=
+  existsb (fun n => path_eqb (npath n) p) ns.
+
+Definition sort_paths (ps : list path) : list path :=
+  map fst (sort_by (map (fun p => (p, tt)) ps)).
+
+Definition ann_missing (ns : list dnode) (t : ent) : list path :=
+  sort_paths (filter (fun p => negb (listed ns p)) (epaths t)).
+
+Definition annotate (o : option dnode) (t : ent) : list (path * option dnode) :=
+  match o with
+  | None => []
+  | Some d =>
+      map (fun n => (npath n, Some n)) (nodes d) ++
+      map (fun p => (p, None)) (ann_missing (nodes d) t)
+  end.
+
+Definition ann_script (l : list (path * option dnode)) : list dnode :=
+  flat_map (fun kv => match snd kv with Some n => [n] | None => [] end) l.
+
+Fixpoint leafokb (t : dtree) : bool :=
+  match t with
+  | Lf s => negb (String.eqb s "")
+  | D l => forallb (fun kv => leafokb (snd kv)) l
+  end.
+Definition leafoke (e : ent) : bool := match e with Some t => leafokb t | None => true end.
+
 (** ** Runner entry point.
 
     Tree: [(f s)] | [(d ((k tree) ...))];  entity: [()] | [(tree)].
     Case: [(prev curr (path ...))] with path = [(seg ...)].
-    Result: [(is_empty (node ...) (got ...) script)] where
+    Result: [(is_empty (node ...) (got ...) script ann_curr ann_prev)] where
     node = [(path status prev curr prev_type curr_type (rem paths) (md paths) (add paths))],
     got = [()] | [(node)] for every query path, and
     script = result of running the listing as a script on [prev]: [()] if refused,
-    else [(entity)]. *)
+    else [(entity)]; ann_x = the items [(path status)] of [annotate] on the directory x. *)
 
 Fixpoint sx_tree (x : sx) : option dtree :=
   match x with
@@ -376,6 +422,9 @@ Definition of_node (d : dnode) : sx :=
      of_list of_path (map npath (nmd d));
      of_list of_path (map npath (nadd d))].
 
+Definition of_ann (kv : path * option dnode) : sx :=
+  L [of_path (fst kv); of_status (dstatus (snd kv))].
+
 Definition run_c18 (x : sx) : sx :=
   match x with
   | L [pv; cu; qs] =>
@@ -386,7 +435,9 @@ Definition run_c18 (x : sx) : sx :=
             L [of_bool (is_empty d);
                of_list of_node (listing d);
                of_list (fun q => L [of_status (dstatus (get d q)); of_opt of_node (get d q)]) qs;
-               of_opt of_ent (run_script (listing d) pv)]
+               of_opt of_ent (run_script (listing d) pv);
+               of_list of_ann (annotate d cu);
+               of_list of_ann (annotate d pv)]
           else sx_bad "c18: not canonical"
       | _, _, _ => sx_bad "c18: decode"
       end
